@@ -64,3 +64,29 @@ def step (s : Store) : Op → Store
 def run (s : Store) (ops : List Op) : Store := ops.foldl step s
 
 end Eos.Keyed
+
+/-! The projection register's pair of maps (`projection.py`: `__projector_tgts`, `__tgt_projectors`), as
+    `apply_projector` / `unapply_projector` maintain them. -/
+namespace Eos.Keyed
+
+structure ProjReg where
+  projTgts : Store := []
+  tgtProjs : Store := []
+
+/-- `apply_projector(projector, tgt_items)` -/
+def ProjReg.apply (r : ProjReg) (p : Nat) (ts : List Nat) : ProjReg :=
+  { projTgts := addSet r.projTgts p ts, tgtProjs := ts.foldl (fun b t => addEntry b t p) r.tgtProjs }
+/-- `unapply_projector(projector, tgt_items)` -/
+def ProjReg.unapply (r : ProjReg) (p : Nat) (ts : List Nat) : ProjReg :=
+  { projTgts := rmSet r.projTgts p ts, tgtProjs := ts.foldl (fun b t => rmEntry b t p) r.tgtProjs }
+
+inductive ProjOp
+  | apply (p : Nat) (ts : List Nat)
+  | unapply (p : Nat) (ts : List Nat)
+
+def ProjReg.step (r : ProjReg) : ProjOp → ProjReg
+  | .apply p ts => r.apply p ts
+  | .unapply p ts => r.unapply p ts
+def ProjReg.run (r : ProjReg) (ops : List ProjOp) : ProjReg := ops.foldl ProjReg.step r
+
+end Eos.Keyed
